@@ -17,8 +17,8 @@ from pathlib import Path
 
 import wire
 
-VERIF = Path("/verif")
-REPO = Path("/repo")
+VERIF = Path(os.environ.get("VERIF_ROOT", "/verif"))
+REPO = Path(os.environ.get("VERIF_REPO", "/repo"))
 WORK = VERIF / ".work"
 BUILD = VERIF / ".build"
 COQFLAGS = ["-Q", "theories", "PV", "-Q", "gen", "PVGen"]
@@ -64,9 +64,12 @@ def write_if_changed(path: Path, text: str):
 
 
 def ensure_makefile():
+    """_CoqProject lists every .v under theories/ and gen/ (regenerated when the set of files changes)."""
+    files = sorted(str(p.relative_to(VERIF)) for root in ("theories", "gen") for p in (VERIF / root).rglob("*.v"))
+    text = "-Q theories PV\n-Q gen PVGen\n" + "\n".join(files) + "\n"
+    changed = write_if_changed(VERIF / "_CoqProject", text)
     mk = VERIF / "Makefile.coq"
-    cp = VERIF / "_CoqProject"
-    if not mk.exists() or mk.stat().st_mtime < cp.stat().st_mtime:
+    if changed or not mk.exists():
         rc, out = sh(["coq_makefile", "-f", "_CoqProject", "-o", "Makefile.coq"])
         if rc != 0:
             raise RuntimeError("coq_makefile failed:\n" + out)
@@ -494,7 +497,7 @@ def run_all_shards(pmod, tier, seed, nshards, budget_s):
     return total
 
 
-def kernel_crosscheck(pid, samples, state_expr="Runner.init", extra_imports=""):
+def kernel_crosscheck(pid, samples, state_expr="RState.init", extra_imports=""):
     """Re-evaluate sampled runner calls inside Coq with vm_compute; they must reproduce the runner's answers."""
     if not samples:
         return 0, True, ""
@@ -502,14 +505,14 @@ def kernel_crosscheck(pid, samples, state_expr="Runner.init", extra_imports=""):
     path = WORK / f"cases_{pid}_{os.getpid()}.v"
     rows = ";\n".join(f"(({op})%N, {wire.coq_value(arg)}, {wire.coq_value(out)})" for op, arg, out in samples)
     text = f"""From Coq Require Import List Bool NArith ZArith.
-From PV Require Import Base.Str Base.Value Base.Wire Runner.
+From PV Require Import Base.Str Base.Value Base.Wire Run.RState Runner.
 {extra_imports}
 Import ListNotations.
 Local Open Scope N_scope.
 Definition cases : list (N * value * value) := [
 {rows}
 ].
-Definition st0 := {state_expr}.
+Definition st0 : rstate := {state_expr}.
 Definition ok (c : N * value * value) : bool :=
   let '(op, arg, out) := c in vstrict_eqb (snd (Runner.run st0 op arg)) out.
 Definition bad := filter (fun c => negb (ok c)) cases.
